@@ -288,7 +288,9 @@ fn exec_action(pool: &Pool<Mgr>, sh: &Sh, tasks: &mut HashMap<String, Task>, ste
                     let r = catch_unwind(AssertUnwindSafe(|| pool.retain(|o, m| {
                         let mj = metrics_json(&sh2, o.id, &m);
                         ev(&sh2, json!(["pred_call", format!("obj:{}", o.id), "C", mj]));
-                        match next(&sh2, "pred").as_str() { "keep" => true, "panic" => panic!("scripted panic in predicate"), _ => false }
+                        let keep = match next(&sh2, "pred").as_str() { "keep" => true, "panic" => panic!("scripted panic in predicate"), _ => false };
+                        cb_point("cb.pred");
+                        keep
                     })));
                     match r {
                         Ok(rr) => {
@@ -405,7 +407,10 @@ fn run_managed_threads(trace: &Value) {
             let mut tasks: HashMap<String, Task> = HashMap::new();
             while let Ok(Some(step)) = cmd_rx.recv() {
                 let kind = step["act"][0].as_str().unwrap().to_string();
-                CTX.with(|c| c.borrow().as_ref().unwrap().cb_points.set(!matches!(kind.as_str(), "retain" | "resize" | "close")));
+                // callbacks (detach, predicate) report a schedule point; the controller passes over those the trace marks
+                // as skipped (the engine saw the calling thread hold a pool lock there)
+                let _ = &kind;
+                CTX.with(|c| c.borrow().as_ref().unwrap().cb_points.set(true));
                 let r = exec_action(&pool2, &sh2, &mut tasks, &step);
                 rep_tx.send(Report::Done(r)).unwrap();
             }
@@ -416,7 +421,8 @@ fn run_managed_threads(trace: &Value) {
     for (i, step) in trace["actions"].as_array().unwrap().iter().enumerate() {
         let tname = step["thread"].as_str().unwrap();
         let w = workers.get_mut(tname).unwrap();
-        { let mut g = sh.lock().unwrap(); let mut extra: VecDeque<Value> = step["env"].as_array().unwrap().iter().filter(|e| e[0] != "timer").cloned().collect(); g.script.append(&mut extra); }
+        { let mut g = sh.lock().unwrap(); let mut extra: VecDeque<Value> = step["env"].as_array().unwrap().iter().filter(|e| e[0] != "timer" && e[0] != "cbskip").cloned().collect(); g.script.append(&mut extra); }
+        let mut cbskip = step["env"].as_array().unwrap().iter().filter(|e| e[0] == "cbskip").count();
         if step["act"][0] == "step" {
             if !w.busy { println!("{}", json!({"i": i, "res": ["driver_error", "step on an idle thread"]})); return; }
             w.resume.send(()).unwrap();
@@ -428,6 +434,7 @@ fn run_managed_threads(trace: &Value) {
         let atomic = step["atomic"].as_bool().unwrap_or(false);
         let res = loop { match w.report.recv_timeout(Duration::from_secs(10)) {
             Ok(Report::AtPoint(_)) if atomic => { w.resume.send(()).unwrap(); continue; }
+            Ok(Report::AtPoint(name)) if name.starts_with("cb.") && cbskip > 0 => { cbskip -= 1; w.resume.send(()).unwrap(); continue; }
             Ok(Report::AtPoint(name)) => break json!(["at_point", name]),
             Ok(Report::Done(v)) => { w.busy = false; break v }
             Err(_) => { println!("{}", json!({"i": i, "res": ["driver_error", "thread did not reach a schedule point (blocked?)"]})); std::process::exit(0); }
